@@ -176,6 +176,9 @@ class LaTeXRenderer(BaseRenderer):
                     '{inner}'
                     '\\end{{document}}\n')
         self.footnotes.update(token.footnotes)
+        # packages are collected per document: a renderer instance that is reused
+        # must not carry over the packages needed by an earlier document.
+        self.packages = {}
         return template.format(inner=self.render_inner(token),
                                packages=self.render_packages())
 
